@@ -88,6 +88,16 @@ Theorem C14_row_count_metadata_only : forall (E : env) (st : store) (o : opts),
 Proof. exact row_count_trace. Qed.
 Print Assumptions C14_row_count_metadata_only.
 
+(* The model does not raise without cause (so the theorems above are not satisfied by a pipeline that
+   always fails): with no transient fault anywhere, metadata that resolves, a complete answer on the
+   specification side and recorded checksums that match, every API returns exactly that answer. *)
+Theorem C14_healthy_ok : forall (E : env) (st : store) (a : api) (o : opts) (md : meta) (ans : answer),
+  noflaky st -> spec_meta E st = Some md -> spec_answer E st a md = Some ans ->
+  (forall s dfs, find_snap md = Some s -> spec_dfiles E st s = Some dfs -> sums_ok E st dfs) ->
+  out (read_current E st a o) = Ok ans.
+Proof. exact healthy_ok. Qed.
+Print Assumptions C14_healthy_ok.
+
 (* ---------------------------------------------------------------------------------------------
    The statement without the exclusion, and why it is false of the code (known finding
    current-metadata-file-deleted-serves-previous-version): pointer -> v2 (deleted); the recovery scan
